@@ -248,6 +248,7 @@ func vfModel(c vfCell, t *vfTree) vfOutcome {
 
 // vfCellResult survives a bubble panic / hang: it is filled progressively.
 type vfCellResult struct {
+	zombieReleased bool
 	viols []vfViol
 	trace string
 	sig   string
